@@ -498,14 +498,39 @@ def have_model():
     return os.path.exists(os.path.join(COQ, "extract", "ExtractC01.v")) and os.path.exists(os.path.join(ROOT, "ocaml/c01/driver.ml"))
 
 
-def model_exe():
+def setup():
+    """build the extracted model driver (bin/check --setup calls this; main builds lazily through the same function)"""
+    if not have_model():
+        return None
     exe, _ = build_model(PROP, "ExtractC01.v", os.path.join(ROOT, "ocaml/c01"), MODEL_DEPS)
     return exe
 
 
-def execute(cases, tag, exe=None, timeout=900, model_cases=None):
-    d = os.path.join(BUILD, "run", "c01")
+def model_exe():
+    return setup()
+
+
+def run_dir():
+    """private per process: two checks running at the same time must not share case/output files"""
+    d = os.path.join(BUILD, "run", "c01", "p%d" % os.getpid())
     os.makedirs(d, exist_ok=True)
+    return d
+
+
+def cleanup_run_dir(keep=False):
+    import shutil
+    base = os.path.join(BUILD, "run", "c01")
+    if not keep:
+        shutil.rmtree(os.path.join(base, "p%d" % os.getpid()), ignore_errors=True)
+    # directories of processes that no longer exist
+    if os.path.isdir(base):
+        for n in os.listdir(base):
+            if n.startswith("p") and n[1:].isdigit() and not os.path.exists("/proc/" + n[1:]):
+                shutil.rmtree(os.path.join(base, n), ignore_errors=True)
+
+
+def execute(cases, tag, exe=None, timeout=900, model_cases=None):
+    d = run_dir()
     cf = os.path.join(d, "cases_%s.txt" % tag)
     with open(cf, "w") as f:
         for c in cases:
@@ -514,7 +539,7 @@ def execute(cases, tag, exe=None, timeout=900, model_cases=None):
     for p in (iout, mout):
         if os.path.exists(p):
             os.remove(p)
-    ov = go_overlay(HARNESS, "c01")
+    ov = go_overlay(HARNESS, "c01_p%d" % os.getpid())
     t0 = time.time()
     rc, out, _ = go_test("./internal/index/", ov, "^TestVerifC01$", {"VERIF_CASES": cf, "VERIF_OUT": iout}, timeout=timeout)
     tgo = time.time() - t0
@@ -583,8 +608,8 @@ def minimise(c, kind, exe, budget=40):
 
 def main(tier, seed, replay=None):
     t0 = time.time()
-    proof = Proof(PROP) if os.path.exists(os.path.join(COQ, "props", "C01.v")) else None
-    exe = model_exe() if have_model() else None
+    proof = Proof(PROP, tier=tier)
+    exe = setup()
     rng = random.Random(seed)
     cases = []
     if replay:
@@ -683,4 +708,5 @@ def main(tier, seed, replay=None):
                    ["wf_input: distinct ids, distinct first-packet sources, both addresses 4 or 16 bytes, >=1 packet, every packet has >=1 source, timestamps non-decreasing with gaps < 2^32 us, one data item per packet in packet order, no two consecutive identical sources",
                     "timestamps between 1970 and 2262 (time.Duration range)"],
                    time.time() - t0, nviol)
+    cleanup_run_dir(keep=bool(nviol) or bool(replay))
     return 1 if nviol else 0
